@@ -6,8 +6,9 @@ Byte strings are `List Nat` (each entry a byte value `< 256`; the driver only pr
 A field is seen through a `FieldIO` record: canonical representative, reduction of a natural
 number, and a square-root oracle.  The families:
 
-* `Sec1`   — k256, p256: tag byte `02/03 ‖ x` (big endian), `04 ‖ x ‖ y`; the identity is `02 ‖ 0…0`
-             and the decoder maps **every** `x = 0` to the identity; coordinates `≥ p` are reduced;
+* `Sec1`   — k256, p256: tag byte `02/03 ‖ x` (big endian), `04 ‖ x ‖ y`; the identity is `02 ‖ 0…0`;
+             the k256 decoder maps **every** `x = 0` to the identity (`decodeCompressed`), the P-256
+             decoder only `02 ‖ 0…0` (`decodeCompressedS`); coordinates `≥ p` are reduced;
 * `Pasta`  — pallas, vesta: little-endian `x`, bit 255 = parity of `y`; identity = all zero
              (`x = 0 ∧ sign = 0`);
 * `Ed`     — edwards25519: little-endian `y`, bit 255 = parity of `x` (RFC 8032 without the
@@ -149,6 +150,20 @@ def decodeCompressed (io : FieldIO F) (a b : F) (len : Nat) : List Nat → Optio
     else
       let x := io.ofNat (beNat xs)
       if x = 0 then some .inf
+      else match io.sqrt? (x * x * x + a * x + b) with
+        | none => none
+        | some y => some (.aff x (if io.toNat y % 2 = tag % 2 then y else -y))
+
+/-- P-256 (since /repo 69efa1d): only `02 ‖ 0…0` is the identity; `03 ‖ 0…0` is the point `(0, y)`
+with odd `y` when it exists (k256 keeps `decodeCompressed`: it has no point with `x = 0`) -/
+def decodeCompressedS (io : FieldIO F) (a b : F) (len : Nat) : List Nat → Option (WPt F)
+  | [] => none
+  | tag :: xs =>
+    if xs.length ≠ len then none
+    else if tag ≠ 2 ∧ tag ≠ 3 then none
+    else
+      let x := io.ofNat (beNat xs)
+      if x = 0 ∧ tag % 2 = 0 then some .inf
       else match io.sqrt? (x * x * x + a * x + b) with
         | none => none
         | some y => some (.aff x (if io.toNat y % 2 = tag % 2 then y else -y))
@@ -368,8 +383,10 @@ def decodeUncompressed (io : CoordIO F) (a b : F) (n len : Nat) : List Nat → O
   | [] => none
   | b0 :: rest =>
     if rest.length + 1 ≠ 2 * io.comps * len then none else
-    if b0 / 64 % 2 = 1 then some .inf else
+    if b0 / 128 % 2 = 1 then none else
+    if b0 / 32 % 2 = 1 then none else
     let body := (b0 % 32) :: rest
+    if b0 / 64 % 2 = 1 then (if body.all (· == 0) then some .inf else none) else
     let x := readCoord io len (body.take (io.comps * len))
     let y := readCoord io len (body.drop (io.comps * len))
     if W.onCurve a b (.aff x y) && inSub a n (.aff x y) then some (.aff x y) else none
@@ -553,15 +570,16 @@ def g1FromCompressed : Facts :=
   { lens := [lenBls], masks := [1, blsBodyMask], shifts := [blsS, blsI, blsC], idx := [0],
     vals := [blsBodyMask, byteMask], sizes := [lenBls] }
 def g1FromUncompressed : Facts :=
-  { lens := [2 * lenBls], masks := [1, blsBodyMask], shifts := [blsI], idx := [0, lenBls], sizes := [2 * lenBls] }
+  { lens := [2 * lenBls], masks := [1, blsBodyMask], shifts := [blsS, blsI, blsC], idx := [0, lenBls],
+    vals := [blsBodyMask, byteMask], sizes := [2 * lenBls] }
 def g1ToCompressed : Facts := { masks := [1], shifts := [blsS, blsI, blsC], idx := [0] }
 def g1ToUncompressed : Facts := { shifts := [blsS, blsI, blsC], idx := [0] }
 def g2FromCompressed : Facts :=
   { lens := [2 * lenBls], masks := [1, blsBodyMask], shifts := [blsS, blsI, blsC], idx := [0, lenBls, 2 * lenBls],
     vals := [blsBodyMask, byteMask], sizes := [2 * lenBls] }
 def g2FromUncompressed : Facts :=
-  { lens := [4 * lenBls], masks := [1, blsBodyMask], shifts := [blsI], idx := [0, lenBls, 2 * lenBls, 3 * lenBls],
-    sizes := [4 * lenBls] }
+  { lens := [4 * lenBls], masks := [1, blsBodyMask], shifts := [blsS, blsI, blsC], idx := [0, lenBls, 2 * lenBls, 3 * lenBls],
+    vals := [blsBodyMask, byteMask], sizes := [4 * lenBls] }
 /-- G2 writes the compressed flag as the constant `1 << 7` -/
 def g2ToCompressed : Facts := { masks := [1, 2 ^ blsC], shifts := [blsS, blsI], idx := [0] }
 def g2ToUncompressed : Facts := { shifts := [blsI], idx := [0] }
